@@ -70,6 +70,7 @@ REQUIRED = {
     'class-f0': 100, 'class-f1': 100, 'class-domain': 100, 'call-model': 100,
     'wellformed': 150, 'ranks': 150, 'o1-model': 40, 'o1-noise-exact': 40,
     'noise-bound': 40, 'additive-exact': 10, 'o2-first-order': 40,
+    'quadratic-exact': 60,
     'o2-pair-terms': 40, 'o2-dense': 30, 'o2-dense-noise': 30,
     'o2-vs-call': 30, 'object-history': 100,
     'func-normal-eq': 50, 'func-const': 50, 'func-layout': 30,
@@ -149,6 +150,8 @@ def gen_cases(seed, tier):
             'e': [1e-8, 1e-8, None, 1e-4, 1e-2][int(rng.integers(5))],
             'box': ['default', 'scalar', 'list'][int(rng.integers(3))],
             'aslist': bool(rng.random() < 0.25)})
+    for j in range(120 if quick else 3000):
+        out.append({'kind': 'quad', 'seed': int(rng.integers(1 << 62))})
     # interleave so that every shard gets both kinds
     perm = np.random.default_rng([seed, 114]).permutation(len(out))
     # 16 showcase cases first (one per shard for any shard count <= 16): small
@@ -444,9 +447,53 @@ def run_case(case, ctx):
             'xfam': 'many', 'vfam': 'smooth', 'lamb': 1e-7, 'e': 1e-8,
             'box': 'list', 'aslist': False, 'show': True}, ctx, teneva)
         return
+    if case['kind'] == 'quad':
+        return run_quad(case, ctx, teneva)
     if case['kind'] == 'func':
         return run_func(case, ctx, teneva)
     return run_anova(case, ctx, teneva)
+
+
+def run_quad(case, ctx, teneva):
+    """A function with pair interactions only and exact TT-rank 3 on a full
+    grid, (sum_k w_k x_k - c)^2: its order-2 ANOVA model is the function
+    itself, so the requested rank 3 (or more) is large enough, while the
+    partial sums of the pair terms have higher ranks than the model."""
+    rng = np.random.default_rng(case['seed'])
+    d = int(rng.integers(4, 7))
+    n = [int(rng.integers(3, 5)) for _ in range(d)]
+    while int(np.prod(n)) > 1500:
+        n[int(np.argmax(n))] -= 1
+        if max(n) < 3:
+            break
+    xs = [rng.normal(size=k) for k in n]
+    wv = rng.uniform(0.5, 1.5, size=d) * rng.choice([-1., 1.], size=d)
+    c = float(rng.normal())
+    I = np.array(list(np.ndindex(*n)), dtype=np.int64)
+    I = I[rng.permutation(len(I))]
+    lin = sum(LD(wv[k]) * xs[k].astype(LD)[I[:, k]] for k in range(d)) - LD(c)
+    y = np.asarray(lin * lin, dtype=float)
+    F = np.zeros(n, dtype=LD)
+    F[tuple(I.T)] = y.astype(LD)
+    r = int(rng.integers(3, 6))
+    if rng.random() < 0.5:
+        Y = teneva.anova(I.copy(), y.copy(), r, 2, 0., seed=int(rng.integers(
+            1 << 30)))
+    else:
+        Y = teneva.ANOVA(I.copy(), y.copy(), 2, seed=int(rng.integers(
+            1 << 30))).cores(r, 0.)
+    why = ref.wellformed(Y, n, finite=True)
+    if not ctx.check('wellformed', why is None, f'order-2 ANOVA of a '
+            f'quadratic form: {why}'):
+        return
+    ctx.check('ranks', all(q <= r for q in ref.ranks_of(Y)), f'order-2 ANOVA: '
+        f'ranks {ref.ranks_of(Y)} exceed r = {r}')
+    err = fro(ref.dense_ld(Y) - F)
+    tol = 1e-7 * fro(F)      # two 1e-10 roundings, skeletons of the pair terms
+    ctx.close('quadratic-exact', err, 0., tol, f'order-2 ANOVA (r = {r}) of '
+        f'(sum w x - c)^2 on a full {n} grid: the model is the function '
+        '(TT-ranks 3), result differs', d=d)
+    ctx.nontrivial(['quad', n, r])
 
 
 def run_anova(case, ctx, teneva):
@@ -919,6 +966,11 @@ def run_func(case, ctx, teneva):
 
     # ---- cores(e=None): the layout
     Yn = Af.cores(e=None)
+    # history on the object: a COARSE rounding requested in between (and its
+    # result edited in place) must not degrade later, finer requests
+    Yc = Af.cores(e=float(rng.choice([1e-1, 3e-1, 1e-2])))
+    for G in Yc:
+        G *= 1.5
     Yn2 = Af.cores(e=None)
     ctx.check('func-object-history', len(Yn) == len(Yn2) and all(
         np.array_equal(a, b, equal_nan=True) for a, b in zip(Yn, Yn2)),
